@@ -107,3 +107,16 @@ FINDINGS += [
 FINDINGS += [
  K("C13", "C13 MapToCurve1(0) off the isogenous curve (bls12-377 G1, bw6-761 G1)", "MapToCurve1(0) returns (0,0), which is not on the isogenous curve, on bls12-377 G1 (Z = 5) and bw6-761 G1 (Z = 2): g(B'/(Z·A')) is a non-square, i.e. the SSWU constant Z violates find_z_sswu criterion 4 (same root cause as the bw6-761 MapToG1 finding); MapToG1(0) then becomes infinity, which is a valid subgroup point, so only the pre-isogeny op sees it", r"^C13 mapc (bls12-377|bw6-761) g1 .* 0 inf$", r"^1 0 1 1", r"^1 X X X", "ecc/bls12-377/hash_to_curve/g1.go (Z), hash_to_g1.go steps 17-22", "C13 mapc bls12-377 g1 1 <p> <A'> 16 sswu 5 0 inf"),
 ]
+
+FINDINGS += [
+ F("C06", "C06 MulAccE4 on empty slices panics (AVX-512 path)", "36b4eb1", "koalabear/babybear MulAccE4 with empty slices panicked (&scale[0]) on the AVX-512 path while the generic path is a no-op", "C06 koalabear E4 mulacc 1,2,3,4 0", "field/{koalabear,babybear}/extensions/e4.go MulAccE4"),
+]
+
+FINDINGS += [
+ F("C06", "C06 E12.DecompressKarabina tests g5 instead of g3 (bn254, bls12-381, bls12-377)", "fda1d37", "E12.DecompressKarabina / BatchDecompressKarabina branched on g5 while dividing by 4*g3: wrong g4/g0 for cyclotomic elements with g3 = 0 != g5 or g5 = 0 != g3 (also visible as the theorem E12.DecompressKarabina_g2_zero, which had to be restated after the fix)", "C06 bn254 E12 ksq 0 <X with C1.B0 = 0>", "ecc/{bn254,bls12-381,bls12-377}/internal/fptower/e12.go:231,311"),
+]
+
+FINDINGS += [
+ K("C06", "C06 GT.IsInSubGroup(0) is true (bn254, bls12-377, bls24-315, bw6-761, bw6-633)", "E12/E24/E6.IsInSubGroup reports the zero element (not a unit, accepted by SetBytes) as a member of GT on bn254, bls12-377, bls24-315, bw6-761 and bw6-633: every test is of the form Frobenius^i(z) == chain(z) and both sides are 0; bls12-381 and bls24-317 answer false",
+   op=r"^C06 (bn254|bls12_377|bls24_315|bw6_761|bw6_633) E\d+ insub 0(,0)*$", go="^1$", model="^0$", where="ecc/*/internal/fptower/e12.go|e24.go|e6.go IsInSubGroup", replay="C06 bn254 E12 insub 0,0,0,0,0,0,0,0,0,0,0,0"),
+]
